@@ -41,7 +41,10 @@ def compare(rep, geo, rng, key, det, work, viafile):
             # the reconstructed geometry may be asked for in another naming convention: the block map then carries every name
             conv2 = geo.convention if rng.random() < 0.6 else rng.choice([c for c in (0, 1, 2) if c != geo.convention and (c != 1 or geo.num_columns <= 99)])
             det["rectgeo_convention"] = conv2
-            geo2, bmap = grid.rectgeo(convention=conv2, atmos_type=geo.atmosphere_type)
+            # layer_snap: the default, or none at all (stepped surfaces lie on layer boundaries already)
+            snap = {} if rng.random() < 0.6 or not det.get("stepped_on_boundaries", False) else {"layer_snap": 0.0}
+            det["rectgeo_layer_snap"] = snap.get("layer_snap", "default")
+            geo2, bmap = grid.rectgeo(convention=conv2, atmos_type=geo.atmosphere_type, **snap)
     except core.Hang:
         rep.violation(key + ":hang", "P_terminates", det)
         return
@@ -153,7 +156,9 @@ def run(tier):
                 if viafile:             # keep the coordinates small: a file only carries four digits of them
                     origin, angle = [0.0, 0.0, 0.0], 0.0
                 key = "box%dx%dx%d:atm%d" % (len(b["dx"]), len(b["dy"]), len(b["dz"]), atm)
-                det = {"box": b, "scale": scale, "atmos_type": atm, "convention": conv, "origin": origin, "angle": angle, "atmosphere_volume": atmvol}
+                det = {"box": b, "scale": scale, "atmos_type": atm, "convention": conv, "origin": origin, "angle": angle, "atmosphere_volume": atmvol,
+                       # (without snapping, a surface recovered from block centres must be exact: no rotation, no offset, no file)
+                       "stepped_on_boundaries": angle == 0.0 and origin == [0.0, 0.0, 0.0] and not (n % 5 == 0)}
                 rep.case(json.dumps(det, sort_keys=True))
                 compare(rep, geo, rng, key, det, work, viafile=viafile)
                 n += 1
@@ -184,6 +189,18 @@ def run(tier):
             det = {"size": [nx, ny, nz], "atmos_type": atm, "convention": conv}
             rep.case(json.dumps(det, sort_keys=True) + str(n))
             compare(rep, geo, rng, key, det, work, viafile=False)
+            n += 1
+        # wide flat boxes (100 and more columns: three-character column numbers in convention 2) through a data file
+        for k_ in range(3 if quick else 12):
+            nx, ny = rng.choice([(12, 9), (10, 10), (11, 10), (12, 12), (9, 12)])
+            conv, atm = (2 if k_ % 3 == 0 else rng.choice([0, 2, 3])), rng.choice([0, 1, 2])
+            with core.quiet():
+                geo = m.mulgrid().rectangular([10.0 * rng.randint(1, 4) for _ in range(nx)], [10.0 * rng.randint(1, 4) for _ in range(ny)],
+                                              [10.0, 20.0, 30.0][:rng.randint(2, 3)], convention=conv, atmos_type=atm)
+            key = "wide:atm%d" % atm
+            det = {"size": [nx, ny, geo.num_layers - 1], "atmos_type": atm, "convention": conv}
+            rep.case(json.dumps(det, sort_keys=True) + str(n))
+            compare(rep, geo, rng, key, det, work, viafile=True)
             n += 1
         rep.traces += n
         rep.sample({"box": boxes[0]["box"], "recovered": [boxes[0]["r1"], boxes[0]["r2"], boxes[0]["r3"]]})
